@@ -42,11 +42,11 @@ func (eng *Engine) errnoType() types.Type {
 func (ex *Exec) errIs(a, b Val) string {
 	if _, ok := ex.sc.decls["err_is"]; !ok {
 		ex.sc.fun("err_is", []string{sInt, sInt, sInt, sInt}, sBool)
-		ex.sc.assert("(forall ((t Int) (p Int)) (! (=> (not (= t 0)) (err_is t p t p)) :pattern ((err_is t p t p))))")
-		ex.sc.assert("(forall ((t Int) (p Int)) (! (= (err_is 0 0 t p) (= t 0)) :pattern ((err_is 0 0 t p))))")
-		ex.sc.assert("(forall ((t Int) (p Int)) (! (=> (not (= t 0)) (not (err_is t p 0 0))) :pattern ((err_is t p 0 0))))")
+		ex.sc.axiom("(forall ((t Int) (p Int)) (! (=> (not (= t 0)) (err_is t p t p)) :pattern ((err_is t p t p))))")
+		ex.sc.axiom("(forall ((t Int) (p Int)) (! (= (err_is 0 0 t p) (= t 0)) :pattern ((err_is 0 0 t p))))")
+		ex.sc.axiom("(forall ((t Int) (p Int)) (! (=> (not (= t 0)) (not (err_is t p 0 0))) :pattern ((err_is t p 0 0))))")
 		en := ex.tid(ex.eng.errnoType())
-		ex.sc.assert(fmt.Sprintf("(forall ((p Int) (q Int)) (! (= (err_is %s p %s q) (= p q)) :pattern ((err_is %s p %s q))))", en, en, en, en))
+		ex.sc.axiom(fmt.Sprintf("(forall ((p Int) (q Int)) (! (= (err_is %s p %s q) (= p q)) :pattern ((err_is %s p %s q))))", en, en, en, en))
 	}
 	return app("err_is", a.L[0], a.L[1], b.L[0], b.L[1])
 }
@@ -75,7 +75,7 @@ func (ex *Exec) sentinel(st *State, pkg, name string) Val {
 	if !ex.sentinelInit[pkg+"."+name] {
 		ex.sentinelInit[pkg+"."+name] = true
 		g0 := ex.load(newState(), ex.ptrLV(ex.globalPtr(g)))
-		ex.sc.assert(mkCmp(">", g0.L[0], "0"))
+		ex.sc.axiom(mkCmp(">", g0.L[0], "0"))
 	}
 	return v
 }
@@ -130,11 +130,32 @@ func (ex *Exec) byteStr(c string) string {
 	// a one-byte string with byte c
 	ex.sc.fun("str_byte", []string{sInt}, sStr)
 	t := app("str_byte", c)
-	ex.sc.assert(mkAnd(mkEq(slen(t), "1"), mkEq(app("sat", t, "0"), c)))
+	ex.sc.axiom(mkAnd(mkEq(slen(t), "1"), mkEq(app("sat", t, "0"), c)))
 	return t
 }
 
+// parentOf: s was defined as (ssub p lo hi).
+func (ex *Exec) parentOf(s string) (p, lo, hi string, ok bool) {
+	def, isDef := ex.sc.defOf[s]
+	if !isDef || !strings.HasPrefix(def, "(ssub ") {
+		return "", "", "", false
+	}
+	parts := splitSexp(def[6 : len(def)-1])
+	if len(parts) != 3 {
+		return "", "", "", false
+	}
+	return parts[0], parts[1], parts[2], true
+}
+
 func (ex *Exec) indexByteFacts(s, c, r string) {
+	if p, lo, hi, ok := ex.parentOf(s); ok {
+		// the same facts in terms of the string s is a substring of (they follow from
+		// the substring axioms; stated so that triggers on the parent string fire)
+		inb := mkAnd(mkCmp("<=", "0", lo), mkCmp("<=", lo, hi), mkCmp("<=", hi, slen(p)))
+		ex.sc.assert(mkImp(mkAnd(inb, mkCmp(">=", r, "0")), mkEq(app("sat", p, mkAdd(lo, r)), c)))
+		lim := mkIte(mkCmp(">=", r, "0"), mkAdd(lo, r), hi)
+		ex.sc.assert(mkImp(inb, fmt.Sprintf("(forall ((j Int)) (! (=> (and (<= %s j) (< j %s)) (not (= (sat %s j) %s))) :pattern ((sat %s j))))", lo, lim, p, c, p)))
+	}
 	n := slen(s)
 	ex.sc.assert(mkAnd(mkCmp(">=", r, "(- 1)"), mkCmp("<", r, n)))
 	ex.sc.assert(mkImp(mkCmp(">=", r, "0"), mkEq(app("sat", s, r), c)))
@@ -201,6 +222,10 @@ func init() {
 			ex.sc.assert(mkAnd(mkCmp("<=", "0", lo), mkCmp("<=", lo, hi), mkCmp("<=", hi, slen(s))))
 			r := ex.sc.define("trimmed", sStr, app("ssub", s, lo, hi))
 			ex.sc.assert(mkEq(slen(r), mkSub(hi, lo)))
+			if len(a) == 1 {
+				ex.sc.fun("str_trimspace", []string{sStr}, sStr)
+				ex.sc.assert(mkEq(app("str_trimspace", s), r))
+			}
 			ex.trimBounds[r] = [2]string{lo, hi}
 			// cut set semantics
 			cut := func(j string) string {
@@ -250,6 +275,14 @@ func init() {
 		return func(ex *Exec, fr *Frame, st *State, reach string, a []Val, sig *types.Signature, pos token.Pos) Val {
 			ex.sc.fun(name, []string{sStr}, sStr)
 			r := ex.sc.define(name, sStr, app(name, a[0].term()))
+			// a string without ASCII letters of the other case (and without non-ASCII bytes) is unchanged
+			lo, hi := "97", "122"
+			if name == "str_lower" {
+				lo, hi = "65", "90"
+			}
+			s0 := a[0].term()
+			ex.sc.assert(mkImp(fmt.Sprintf("(forall ((i Int)) (! (=> (and (<= 0 i) (< i (slen %s))) (and (< (sat %s i) 128) (not (and (<= %s (sat %s i)) (<= (sat %s i) %s))))) :pattern ((sat %s i))))", s0, s0, lo, s0, s0, hi, s0), mkEq(r, s0)))
+			ex.sc.assert(mkEq(slen(r), slen(s0)))
 			return scalar(tString, r)
 		}
 	}
@@ -328,6 +361,23 @@ func init() {
 			}
 			ex.sc.assert(mkEq(app("str_isnum", s, base, sg), mkNot(ex.errIs(err, esyn))))
 			ex.sc.assert(mkImp(ok, mkEq(v.term(), app(fn, s, base))))
+			// a numeric text parses iff its value fits the bit size (otherwise ErrRange)
+			if b, isLit := isNumLit(bits); isLit && b.IsInt64() {
+				n := uint(b.Int64())
+				if n == 0 {
+					n = 64
+				}
+				if n <= 64 {
+					val := app(fn, s, base)
+					var in string
+					if signed {
+						in = mkAnd(mkCmp(">=", val, numBig(new(big0).Neg(pow2(n-1)))), mkCmp("<", val, numBig(pow2(n-1))))
+					} else {
+						in = mkAnd(mkCmp(">=", val, "0"), mkCmp("<", val, numBig(pow2(n))))
+					}
+					ex.sc.assert(mkImp(app("str_isnum", s, base, sg), mkEq(ok, in)))
+				}
+			}
 			if !signed {
 				ex.sc.assert(mkImp(mkAnd(mkCmp(">", slen(s), "0"), mkOr(mkEq(app("sat", s, "0"), "45"), mkEq(app("sat", s, "0"), "43"))), ex.errIs(err, esyn)))
 			}
@@ -341,6 +391,7 @@ func init() {
 		ex.sc.fun("str_dec", []string{sInt}, sStr)
 		r := ex.sc.define("dec", sStr, app("str_dec", a[0].term()))
 		ex.sc.assert(mkAnd(mkCmp(">=", slen(r), "1"), mkCmp("<=", slen(r), "20")))
+		ex.decFacts(r, a[0].term())
 		return scalar(tString, r)
 	}
 	reg("strconv.Itoa", dec)
@@ -513,7 +564,7 @@ func init() {
 	// ---- os, filepath, user, net, unix, runtime
 	reg("os.Getpid", func(ex *Exec, fr *Frame, st *State, reach string, a []Val, sig *types.Signature, pos token.Pos) Val {
 		ex.sc.global("os_pid", sInt)
-		ex.sc.assert("(and (> os_pid 0) (< os_pid 2147483648))")
+		ex.sc.axiom("(and (> os_pid 0) (< os_pid 2147483648))")
 		return scalar(tInt, "os_pid")
 	})
 	reg("os.Getpagesize", func(ex *Exec, fr *Frame, st *State, reach string, a []Val, sig *types.Signature, pos token.Pos) Val {
@@ -662,6 +713,14 @@ func init() {
 			caps := ex.elemArr(st, inner, 3, r.L[0])
 			ex.sc.assert(fmt.Sprintf("(forall ((i Int)) (! (=> (and (<= 0 i) (< i %s)) (and (= (select %s i) %d) (> (select %s i) 0) (>= (select %s i) 0) (>= (select %s i) %d))) :pattern ((select %s i))))",
 				r.L[2], lens, re.MaxCap()+1, refs, offs, caps, re.MaxCap()+1, lens))
+			// every submatch is a substring of the subject; a top-level group is shorter
+			// than the subject by at least the minimal length of the rest of the pattern
+			strs := ex.comp(st, compE(tString, 0), sArr(sInt, sArr(sInt, sStr)))
+			slack := groupSlack(re)
+			for g := 0; g <= re.MaxCap(); g++ {
+				ex.sc.assert(fmt.Sprintf("(forall ((i Int)) (! (=> (and (<= 0 i) (< i %s)) (<= (slen (select (select %s (select %s i)) (+ (select %s i) %d))) (- (slen %s) %d))) :pattern ((select %s i))))",
+					r.L[2], strs, refs, offs, g, s, slack[g], refs))
+			}
 		}
 		return r
 	})
@@ -899,4 +958,63 @@ func init() {
 	}
 	reg("(*bytes.Buffer).WriteString", nothing)
 	reg("(*bytes.Buffer).String", nothing)
+}
+
+// minLen: the minimal length of a string matched by re.
+func minLen(re *syntax.Regexp) int {
+	switch re.Op {
+	case syntax.OpLiteral:
+		return len(string(re.Rune))
+	case syntax.OpCharClass, syntax.OpAnyChar, syntax.OpAnyCharNotNL:
+		return 1
+	case syntax.OpCapture, syntax.OpPlus:
+		return minLen(re.Sub[0])
+	case syntax.OpRepeat:
+		return re.Min * minLen(re.Sub[0])
+	case syntax.OpConcat:
+		n := 0
+		for _, s := range re.Sub {
+			n += minLen(s)
+		}
+		return n
+	case syntax.OpAlternate:
+		m := -1
+		for _, s := range re.Sub {
+			if l := minLen(s); m < 0 || l < m {
+				m = l
+			}
+		}
+		if m < 0 {
+			return 0
+		}
+		return m
+	}
+	return 0
+}
+
+// groupSlack[g]: how much shorter than the whole match group g must be (only
+// for groups that are top-level concatenands; 0 otherwise).
+func groupSlack(re *syntax.Regexp) map[int]int {
+	out := map[int]int{}
+	if re.Op != syntax.OpConcat {
+		return out
+	}
+	total := minLen(re)
+	for _, s := range re.Sub {
+		if s.Op == syntax.OpCapture {
+			out[s.Cap] = total - minLen(s)
+		}
+	}
+	return out
+}
+
+// decFacts: the canonical decimal text of n parses back to n (strconv round trip).
+func (ex *Exec) decFacts(r, n string) {
+	ex.sc.fun("str_uval", []string{sStr, sInt}, sInt)
+	ex.sc.fun("str_ival", []string{sStr, sInt}, sInt)
+	ex.sc.fun("str_isnum", []string{sStr, sInt, sBool}, sBool)
+	ex.sc.assert(mkAnd(mkEq(app("str_ival", r, "10"), n), app("str_isnum", r, "10", "true")))
+	// the decimal text of a non-negative number consists of digits
+	ex.sc.assert(mkImp(mkCmp(">=", n, "0"), fmt.Sprintf("(forall ((i Int)) (! (=> (and (<= 0 i) (< i (slen %s))) (and (<= 48 (sat %s i)) (<= (sat %s i) 57))) :pattern ((sat %s i))))", r, r, r, r)))
+	ex.sc.assert(mkImp(mkCmp(">=", n, "0"), mkAnd(mkEq(app("str_uval", r, "10"), n), app("str_isnum", r, "10", "false"))))
 }
